@@ -194,10 +194,13 @@ UsedMethodRule == [][UsedMethodStep]_vars
 Key(s) == [fam |-> fam, cur |-> cur, ov |-> [n \in 1..N |-> Show(s[cur][n])]]
 
 \* what the real code must show after the operation, at every node
+\* (m only matters while the render method is under test, gate / clr while forced_support is:
+\*  elsewhere they are the defaults of the DEFAULTS line and are left out of the dump)
 Exp(s) == [eff |-> [n \in 1..N |-> Show(ObsEff(Tree, fam, s, cur, n))],
-           m |-> [n \in 1..N |-> Eff(Tree, s, "rm", n).s],   \* effective method: dictates the data size
-           gate |-> [n \in 1..N |-> Gate(Tree, s, n)],
-           clr |-> [n \in 1..N |-> ClearObs(Tree, fam, s, n)]]
+           \* effective method: dictates the data size
+           m |-> IF cur = "rm" THEN [n \in 1..N |-> Eff(Tree, s, "rm", n).s] ELSE <<>>,
+           gate |-> IF cur = "fs" THEN [n \in 1..N |-> Gate(Tree, s, n)] ELSE <<>>,
+           clr |-> IF cur = "fs" THEN [n \in 1..N |-> ClearObs(Tree, fam, s, n)] ELSE <<>>]
 
 OpOut(o, s2) == [k |-> o.op.k, set |-> o.op.set, n |-> o.op.n, a |-> Show(o.op.a),
                  res |-> o.res, used |-> o.used, um |-> o.um, exp |-> Exp(s2)]
